@@ -14,10 +14,14 @@ RULE = ('one generated spec is built (1) as a hand-written spied chart, (2) with
         'the sibling states; all builds are started in the same state and driven with the same event script; per step the ground-truth '
         'action log (entries, exits, inits, reactions, guard evaluations) and the rest state must be identical, and equal to the reference '
         'model. Specs include states without registered entry/exit/init, guard callbacks that decline, init callbacks that transition. '
+        'In every second case a SECOND template chart that shares the first chart\'s state names but has a different design (nesting, '
+        'reactions, callbacks) is assembled after the first and is alive while the first runs; it is then driven itself and must follow '
+        'its own design (reference model) - whatever one chart registers belongs to that chart only. '
         'distinct_nontrivial = distinct (build, states, transitions, declines) tuples')
 CASES = {'quick': 2500, 'thorough': 100000}
 BUDGET = {'quick': 50, 'thorough': 300}
-REQUIRE = {'template_builds': 1000, 'to_code_builds': 1000, 'factory_builds': 50, 'steps_compared': 20000, 'declines': 200}
+REQUIRE = {'template_builds': 1000, 'to_code_builds': 1000, 'factory_builds': 50, 'steps_compared': 20000, 'declines': 200,
+           'decoy_charts_alive_with_shared_state_names': 500}
 ASSUME = ['signal and state names are Python identifiers (to_code emits signals.NAME and def NAME)']
 
 
@@ -170,6 +174,10 @@ def run_case(ctx, n):
   c2 = Counted()
   build_template(c2, spec, cbs2, fns2)
   ctx.count('template_builds')
+  # half of the cases: a SECOND template chart with the same state names but a different design (other nesting, other
+  # reactions, other callbacks) is assembled after the first and is alive while the first runs; both must behave as their
+  # own design says (charts are independent objects: whatever one registers belongs to that chart only)
+  decoy = make_decoy(ctx, rng, spec, Counted) if n % 2 == 1 else None
   try:
     got2 = drive_sync(c2, fns2[names[start]], script, log2, lambda: budget.__setitem__(0, 0))
   except cg.Budget:
@@ -210,11 +218,53 @@ def run_case(ctx, n):
   got3 = [(relevant(spec, lg), rest) for lg, rest in got3]
   if not compare('to_code', got3):
     return
+  if decoy is not None and not check_decoy(ctx, decoy, budget, wit):
+    return
   # ---- build 4 (a share): Factory on its own thread
   if n % 8 == 0:
     factory_build(ctx, spec, start, script, ref, compare, wit)
   if n < 2:
     ctx.sample({'spec': spec, 'start': start, 'script': script, 'to_code_of_first_state': texts[names[0]]})
+
+
+def make_decoy(ctx, rng, spec, host_cls):
+  """a second chart sharing the first chart's state names: different tree, reactions and callbacks"""
+  d = cg.gen_spec(rng, nmax=max(2, spec['n']), name_style='plain', p_clause=0.85, nsig=len(spec['sigs']))
+  d['sigs'] = list(spec['sigs'])      # same alphabet as the first chart: E0.., with 'ZZ' (nobody answers) last
+  perm = list(range(spec['n']))
+  rng.shuffle(perm)
+  d['names'] = [spec['names'][perm[i]] if i < spec['n'] else 'decoy_only_%d' % i for i in range(d['n'])]
+  logd, fnsd, cntd = [], {}, [0]
+  cbsd = make_callbacks(d, logd, fnsd, cntd)
+  cd = host_cls()
+  build_template(cd, d, cbsd, fnsd)
+  ctx.count('decoy_charts_alive_with_shared_state_names')
+  return {'spec': d, 'chart': cd, 'log': logd, 'fns': fnsd, 'start': rng.randrange(d['n']), 'script': cg.gen_script(rng, d, rng.randint(3, 15))}
+
+
+def check_decoy(ctx, decoy, budget, wit):
+  """the second chart, driven after the first one ran, must follow its own design (reference model)"""
+  d = decoy['spec']
+  m = cg.Model(d)
+  exp = [relevant(d, m.start(decoy['start']))]
+  for sn in decoy['script']:
+    exp.append(relevant(d, m.dispatch(sn)[0]))
+  wit = dict(wit, second_chart={'spec': d, 'start': decoy['start'], 'script': decoy['script']})
+  try:
+    got = drive_sync(decoy['chart'], decoy['fns'][d['names'][decoy['start']]], decoy['script'], decoy['log'], lambda: budget.__setitem__(0, 0))
+  except cg.Budget:
+    ctx.violation('C17/template-does-not-terminate', 'second template chart (same state names as the first) exceeded the step budget', wit)
+    return False
+  except Exception as ex:
+    ctx.violation('C17/template-raises', 'second template chart (same state names as the first) raised %s: %s' % (type(ex).__name__, ex), wit)
+    return False
+  got = [relevant(d, lg) for lg, rest in got]
+  ctx.count('steps_compared', len(got))
+  for k, (lg, elg) in enumerate(zip(got, exp)):
+    if lg != elg:
+      ctx.violation('C17/template-differs-from-hand-written', 'second template chart (same state names as the first, different design), step %d: log %r; its own design gives %r' % (k - 1, lg, elg), dict(wit, failing_step=k - 1))
+      return False
+  return True
 
 
 def factory_build(ctx, spec, start, script, ref, compare, wit):
